@@ -53,6 +53,9 @@ func verifInterleave(on bool)
 // verifGoOrder(true): from here on, at every go statement (up to 3 per path) the new goroutine may run first
 func verifGoOrder(on bool)
 
+// verifMapOrder(true): from here on a range over a built-in map of two or more entries may also run in reverse order
+func verifMapOrder(on bool)
+
 // harness goroutines under lock-granular interleaving
 var verifWG sync.WaitGroup
 
